@@ -23,8 +23,15 @@
       left them registered (now: only the control of the completed dispatcher itself, and clears them),
     - an idle *seeder* is removed with a nil result for remaining waiters (its blob stays cached).
 
-  Not modelled: eviction of a cached blob by the store's cleanup while the scheduler holds it (the
-  `removeTorrent(h, …)` branch at the top of `newTorrentEvent.apply`), `addTorrent` errors.
+  A download request is two steps, as in `doDownload`: `create` (the caller's `CreateTorrent`: the torrent
+  object is complete iff the blob is cached at that moment) and `apply` (the event loop applies the
+  `newTorrentEvent`, which looks at that torrent object, not at the cache); `request` is the two in
+  immediate succession.  `evict h` is the store's cleanup deleting a cached blob (also under a live
+  control): a later request then takes the branch at the top of `newTorrentEvent.apply` (control complete,
+  torrent on disk not): `removeTorrent`, then `addTorrent` again.  `incoming h` is a control created by an
+  incoming connection (`addIncomingConn`): no waiter.  The ghost flag `pure` is true as long as no blob was
+  evicted and no request was split: in such schedules a complete control always has its blob.
+  Not modelled: `addTorrent` errors.
   Time is abstracted: `timeout h` is a preemption tick that finds `h` idle (a tick finding several
   torrents idle is a sequence of such steps); whether a torrent may be found idle is C18's subject.
 -/
@@ -56,10 +63,27 @@ structure State where
   nextGen : Nat := 0
   nextW : Nat := 0
   results : Nat → List Sent := fun _ => []
+  /-- requests whose torrent was created by the caller and whose `newTorrentEvent` is not applied yet:
+      torrent and whether the created torrent object is complete -/
+  snap : Nat → Option (Hash × Bool) := fun _ => none
+  /-- ghost: no eviction and no split request so far -/
+  pure : Bool := true
+  /-- the torrent's download file exists (created by `CreateTorrent` for a blob that is not cached; gone when
+      the download is cancelled or deleted, or when the completed file is moved to the cache). A dispatcher whose
+      torrent object is older than the file's disappearance cannot write pieces: it never completes. -/
+  dl : Hash → Bool := fun _ => false
 
 inductive Action where
-  /-- `Download` of a blob whose metainfo exists: `CreateTorrent`, then `newTorrentEvent` -/
+  /-- `Download` of a blob whose metainfo exists: `CreateTorrent`, then `newTorrentEvent` at once -/
   | request (h : Hash)
+  /-- the caller's half of `Download`: `CreateTorrent` and handing the event to the loop -/
+  | create (h : Hash)
+  /-- the event loop applies the `newTorrentEvent` of request `w` -/
+  | apply (w : Nat)
+  /-- an incoming connection creates a control for `h` when there is none (`addIncomingConn`) -/
+  | incoming (h : Hash)
+  /-- the store's cleanup evicts the cached blob of `h` -/
+  | evict (h : Hash)
   /-- `Download` of a blob unknown to the tracker: returns "not found" without any event -/
   | requestMissing
   /-- the dispatcher's goroutine writes the last piece: the torrent is committed to the cache and the
@@ -83,6 +107,9 @@ def setCtrl (s : State) (h : Hash) (oc : Option Ctrl) : State :=
 def setCached (s : State) (h : Hash) (b : Bool) : State :=
   { s with cached := fun k => if k = h then b else s.cached k }
 
+def setDl (s : State) (h : Hash) (b : Bool) : State :=
+  { s with dl := fun k => if k = h then b else s.dl k }
+
 /-- `for _, errc := range ws { errc <- x }` -/
 def sendTo (res : Nat → List Sent) (ws : List Nat) (x : Sent) : Nat → List Sent :=
   fun w => res w ++ List.replicate (ws.count w) x
@@ -92,22 +119,71 @@ def waitersOf (s : State) (h : Hash) : List Nat :=
   | some c => c.waiters
   | none => []
 
-def request (s : State) (h : Hash) : State :=
+/-- `state.removeTorrent(h, r)` for the existing control `c`; `cachedAfter`: ghost, whether the blob is in
+    the cache once the calling event has finished -/
+def removeTorrent (rep : Bool) (s : State) (h : Hash) (c : Ctrl) (r : Res) (cachedAfter : Bool) : State :=
+  let s' := if rep || !c.complete then { s with results := sendTo s.results c.waiters ⟨r, cachedAfter⟩ } else s
+  let s' := if c.complete then s' else setDl (setCached s' h false) h false
+  setCtrl s' h none
+
+/-- the caller's half of `doDownload`: a fresh request number; when the loop is stopped `send` fails and
+`Download` returns at once, otherwise the created torrent's completeness is remembered with the event -/
+def create (s : State) (h : Hash) : State :=
   let w := s.nextW
-  let s := { s with nextW := w + 1 }
+  let s := setDl { s with nextW := w + 1 } h (s.dl h || !s.cached h)
+  if s.stopped then { s with results := sendTo s.results [w] ⟨.stopped, s.cached h⟩ }
+  else { s with snap := fun k => if k = w then some (h, s.cached h) else s.snap k }
+
+/-- `state.addTorrent` for request `w` over a torrent object whose completeness is `sc` -/
+def addFor (s : State) (h : Hash) (w : Nat) (sc : Bool) : State :=
+  let g := s.nextGen
+  let s := { s with nextGen := g + 1, live := if h ∈ s.live then s.live else h :: s.live }
+  if sc then
+    -- `dispatch.New` over a complete torrent completes at once and sends its notice
+    { setCtrl s h (some ⟨g, true, []⟩) with
+        notices := s.notices ++ [(h, g)], results := sendTo s.results [w] ⟨.ok, s.cached h⟩ }
+  else setCtrl s h (some ⟨g, false, [w]⟩)
+
+/-- `newTorrentEvent.apply` for request `w` of torrent `h`, whose torrent object (created by the caller)
+has completeness `sc` -/
+def handleReq (rep : Bool) (s : State) (h : Hash) (w : Nat) (sc : Bool) : State :=
   if s.stopped then { s with results := sendTo s.results [w] ⟨.stopped, s.cached h⟩ }
   else match s.ctrl h with
     | some c =>
-      if c.complete then { s with results := sendTo s.results [w] ⟨.ok, s.cached h⟩ }
+      if c.complete && !sc then
+        -- the scheduler thinks the torrent is complete, the torrent just created from disk is not
+        -- (the blob was evicted): remove the control, add the torrent again
+        addFor (removeTorrent rep s h c .removed (s.cached h)) h w sc
+      else if c.complete then { s with results := sendTo s.results [w] ⟨.ok, s.cached h⟩ }
       else setCtrl s h (some { c with waiters := c.waiters ++ [w] })
+    | none => addFor s h w sc
+
+/-- the event loop applies the `newTorrentEvent` of request `w` (when the loop was stopped in between, the
+caller's `send` fails instead: same answer) -/
+def applyReq (rep : Bool) (s : State) (w : Nat) : State :=
+  match s.snap w with
+  | none => s
+  | some (h, sc) => handleReq rep { s with snap := fun k => if k = w then none else s.snap k } h w sc
+
+/-- `Download`: create and apply in immediate succession (the torrent object's completeness is the
+cache's at that moment) -/
+def request (rep : Bool) (s : State) (h : Hash) : State :=
+  handleReq rep (setDl { s with nextW := s.nextW + 1 } h (s.dl h || !s.cached h)) h s.nextW (s.cached h)
+
+/-- `addIncomingConn` for a torrent without a control: `GetTorrent` + `addTorrent(…, false)` -/
+def incoming (s : State) (h : Hash) : State :=
+  if s.stopped then s
+  else match s.ctrl h with
+    | some _ => setDl s h (s.dl h || !s.cached h)   -- the torrent is on disk when a peer is accepted for it
     | none =>
       let g := s.nextGen
-      let s := { s with nextGen := g + 1, live := if h ∈ s.live then s.live else h :: s.live }
-      if s.cached h then
-        -- addTorrent over a cached blob: `dispatch.New` completes at once and sends its notice
-        { setCtrl s h (some ⟨g, true, []⟩) with
-            notices := s.notices ++ [(h, g)], results := sendTo s.results [w] ⟨.ok, true⟩ }
-      else setCtrl s h (some ⟨g, false, [w]⟩)
+      let s := { s with nextGen := g + 1, live := if h ∈ s.live then s.live else h :: s.live,
+                        dl := fun k => if k = h then !s.cached h else s.dl k }
+      if s.cached h then { setCtrl s h (some ⟨g, true, []⟩) with notices := s.notices ++ [(h, g)] }
+      else setCtrl s h (some ⟨g, false, []⟩)
+
+def evict (s : State) (h : Hash) : State :=
+  if s.cached h then { setCached s h false with pure := false } else s
 
 def requestMissing (s : State) : State :=
   { s with nextW := s.nextW + 1, results := sendTo s.results [s.nextW] ⟨.notFound, false⟩ }
@@ -115,9 +191,9 @@ def requestMissing (s : State) : State :=
 def finish (s : State) (h : Hash) : State :=
   match s.ctrl h with
   | some c =>
-    if c.complete then s
+    if c.complete || !s.dl h then s
     else
-      let s' := setCached (setCtrl s h (some { c with complete := true })) h true
+      let s' := setDl (setCached (setCtrl s h (some { c with complete := true })) h true) h false
       if s.stopped then s' else { s' with notices := s.notices ++ [(h, c.gen)] }
   | none => s
 
@@ -134,13 +210,6 @@ def notice (rep : Bool) (s : State) (h : Hash) (g : Nat) : State :=
       | none => s
   else s
 
-/-- `state.removeTorrent(h, r)` for the existing control `c`; `cachedAfter`: ghost, whether the blob is in
-    the cache once the calling event has finished -/
-def removeTorrent (rep : Bool) (s : State) (h : Hash) (c : Ctrl) (r : Res) (cachedAfter : Bool) : State :=
-  let s' := if rep || !c.complete then { s with results := sendTo s.results c.waiters ⟨r, cachedAfter⟩ } else s
-  let s' := if c.complete then s' else setCached s' h false
-  setCtrl s' h none
-
 def timeout (rep : Bool) (s : State) (h : Hash) : State :=
   if s.stopped then s
   else match s.ctrl h with
@@ -153,7 +222,7 @@ def rm (rep : Bool) (s : State) (h : Hash) : State :=
     let s' := match s.ctrl h with
       | some c => removeTorrent rep s h c .removed false
       | none => s
-    setCached s' h false
+    setDl (setCached s' h false) h false
 
 def shutdown (s : State) : State :=
   if s.stopped then s
@@ -162,7 +231,11 @@ def shutdown (s : State) : State :=
              results := s.live.foldl (fun res h => sendTo res (waitersOf s h) ⟨.stopped, s.cached h⟩) s.results }
 
 def step (rep : Bool) (s : State) : Action → State
-  | .request h => request s h
+  | .request h => request rep s h
+  | .create h => { create s h with pure := false }
+  | .apply w => applyReq rep s w
+  | .incoming h => incoming s h
+  | .evict h => evict s h
   | .requestMissing => requestMissing s
   | .finish h => finish s h
   | .notice h g => notice rep s h g
